@@ -120,9 +120,19 @@ Fixpoint group_add (ep : addr) (g : eventgroup) (acc : list (addr * list eventgr
 Definition group_entries (l : list (eventgroup * addr)) : list (addr * list eventgroup) :=
   fold_left (fun acc p => group_add (snd p) (fst p) acc) l [].
 
-Definition subscribe_eventgroup (g : eventgroup) (ep : addr) (w : world) : world :=
+(* GHOST: the ids of g are already requested from ep (C14 quantifies over histories without such duplicates) *)
+Definition eg_ids_eq (a b : eventgroup) : bool :=
+  (g_sid a =? g_sid b) && (g_iid a =? g_iid b) && (g_maj a =? g_maj b) && (g_id a =? g_id b).
+Definition requested (g : eventgroup) (ep : addr) (l : list (eventgroup * addr)) : bool :=
+  existsb (fun p => eg_ids_eq (fst p) g && (snd p =? ep)) l.
+Definition note_dup (g : eventgroup) (ep : addr) (w : world) : world :=
+  if requested g ep (sub_entries w) then ghost (GDupSub ep) w else w.
+
+Definition subscribe_core (g : eventgroup) (ep : addr) (w : world) : world :=
   let w1 := set_sub_entries (sub_entries w ++ [(g, ep)]) w in
   if sub_alive w1 then call_soon (HSendStartSub ep [g]) w1 else w1.
+Definition subscribe_eventgroup (g : eventgroup) (ep : addr) (w : world) : world :=
+  subscribe_core g ep (note_dup g ep w).
 
 Fixpoint remove_first {X} (eqb : X -> X -> bool) (x : X) (l : list X) : option (list X) :=
   match l with
